@@ -27,6 +27,7 @@ func init() { runners["C10"] = runC10 }
 type faultConn struct {
 	net.Conn
 	mode     string // eof | readerr | stall | writeerr | none
+	lastByte byte   // last byte delivered to the client
 	cutRead  int
 	cutWrite int
 
@@ -89,6 +90,9 @@ func (f *faultConn) Read(b []byte) (int, error) {
 	n, err := f.Conn.Read(b)
 	f.mu.Lock()
 	f.nRead += n
+	if n > 0 {
+		f.lastByte = b[n-1]
+	}
 	f.mu.Unlock()
 	return n, err
 }
@@ -148,7 +152,7 @@ var reTagLine = regexp.MustCompile(`^T(\d+) (OK|NO|BAD)`)
 func runC10(h *H) {
 	imports := []string{"From GoImap.Base Require Import Bytes.", "From GoImap.Model Require Import ClientConn ClientConnCorr."}
 	corr := h.NewCorr("faults", imports, "cc_mismatches", 400).Type("cc_case")
-	h.Rule("for each operation of a corpus covering the client's blocking calls (NOOP, LOGIN, SELECT, LIST with Collect, FETCH with a body literal consumed through Next/LiteralReader, APPEND with a synchronising literal, IDLE start/Close, SEARCH, STATUS, EXPUNGE, STORE, COPY, AUTHENTICATE PLAIN, two pipelined commands, NOOP and a pipelined NOOP/FETCH/STATUS answered after an unsolicited BYE) the scripted server's complete reply is cut at EVERY byte offset (quick tier: every offset for EOF, every 3rd for the others) with the fault EOF / read error / stall-until-the-client's-own-deadline (virtual time) / stall-until-Close, plus write errors at every offset of the client's output; the caller's blocking call, Client.Close and the exit of the client's goroutines are each guarded by a watchdog. Oracle: everything returns; a command whose tagged completion had not fully arrived reports an error. Model: the completed/failed status of every command equals the model's after the delivered response lines followed by the connection loss. Non-trivial = the cut falls before the final tagged line; distinct by (operation, fault, offset).")
+	h.Rule("for each operation of a corpus covering the client's blocking calls (NOOP, LOGIN, SELECT, LIST with Collect, FETCH with a body literal consumed through Next/LiteralReader, FETCH of a message with 40 data items (more than the per-message channel holds), APPEND with a synchronising literal, IDLE start/Close, SEARCH, STATUS, EXPUNGE, STORE, COPY, AUTHENTICATE PLAIN, two pipelined commands, NOOP and a pipelined NOOP/FETCH/STATUS answered after an unsolicited BYE) the scripted server's complete reply is cut at EVERY byte offset (quick tier: every offset for EOF, every 3rd for the others) with the fault EOF / read error / stall-until-the-client's-own-deadline (virtual time) / stall-until-Close, plus write errors at every offset of the client's output; the caller's blocking call, Client.Close and the exit of the client's goroutines are each guarded by a watchdog. Oracle: everything returns; a stall in the middle of a response line meets a read deadline of the client (between responses the client waits without one by design); a command whose tagged completion had not fully arrived reports an error. Model: the completed/failed status of every command equals the model's after the delivered response lines followed by the connection loss. Non-trivial = the cut falls before the final tagged line; distinct by (operation, fault, offset).")
 
 	idleTag := ""
 	generic := func(p *scriptedPeer, c *peerCmd) {
@@ -194,8 +198,38 @@ func runC10(h *H) {
 		}
 		generic(p, c)
 	}
+	// one FETCH response with more data items than the client's per-message channel holds (32)
+	manyItems := func(p *scriptedPeer, c *peerCmd) {
+		if c.Name == "FETCH" {
+			var sb strings.Builder
+			sb.WriteString("* 1 FETCH (UID 7")
+			for i := 1; i <= 40; i++ {
+				fmt.Fprintf(&sb, " BINARY.SIZE[%d] %d", i, i*10)
+			}
+			sb.WriteString(")\r\n* 2 FETCH (FLAGS ())\r\n" + c.Tag + " OK done\r\n")
+			p.Send(sb.String())
+			return
+		}
+		generic(p, c)
+	}
 	ops := []c10Op{
 		{"noop", func(c *imapclient.Client) error { return c.Noop().Wait() }, generic},
+		{"fetch-many-items-collect", func(c *imapclient.Client) error {
+			_, err := c.Fetch(imap.SeqSetNum(1, 2), &imap.FetchOptions{UID: true}).Collect()
+			return err
+		}, manyItems},
+		{"fetch-many-items-stream", func(c *imapclient.Client) error {
+			cmd := c.Fetch(imap.SeqSetNum(1, 2), &imap.FetchOptions{UID: true})
+			for {
+				msg := cmd.Next()
+				if msg == nil {
+					break
+				}
+				for msg.Next() != nil {
+				}
+			}
+			return cmd.Close()
+		}, manyItems},
 		{"noop-bye", func(c *imapclient.Client) error { return c.Noop().Wait() }, withBye},
 		{"pipelined-bye", func(c *imapclient.Client) error {
 			a := c.Noop()
@@ -336,6 +370,19 @@ func runC10(h *H) {
 		closedEarly := false
 		if !returned && mode == "stall" {
 			closedEarly = true
+			// the client arms a read deadline for every read (idle, response, literal): a stall
+			// that meets none would hang until somebody else closes the client
+			// between responses the client waits without a deadline by design (idleReadTimeout = 0);
+			// once a response line has begun it arms a read deadline: a stall in the middle of a
+			// line that meets none would hang until somebody else closes the client
+			fc.mu.Lock()
+			midLine := fc.nRead > 0 && fc.lastByte != '\n'
+			fc.mu.Unlock()
+			if midLine {
+				h.Fail("stall-without-deadline:"+op.name, fmt.Sprintf("%s: the server stalled in the middle of a response line (byte offset %d of its reply) and the client had no read deadline armed: the call only returned because the caller closed the client", op.name, cut), desc)
+			} else {
+				h.Hist("stall_between_responses_until_close:" + op.name)
+			}
 			if !withTimeout(4*time.Second, func() { client.Close() }) {
 				h.Fail("close-hangs:"+op.name+":"+mode, fmt.Sprintf("Client.Close did not return while %s was stalled at offset %d", op.name, cut), desc)
 			}
